@@ -382,8 +382,6 @@ def classify(tr, clause, a, b, l):
             newc = "instore"
         elif c["new"] in d["pack"]:
             newc = "inpack" if d["packok"] else "inbadpack"
-        elif any(c["new"] in q["pack"] and q["packok"] for q in push):
-            newc = "inotherpack"
         else:
             newc = "missing"
         hook = "predecl" if d["predecl"] else ("decl" if c["r"] in d["decl"] else "none")
@@ -391,19 +389,26 @@ def classify(tr, clause, a, b, l):
                     reported=(done["st"][i - 1] if done and i <= len(done["st"]) else "?"), hook=hook, c=c, pre=pre, post=post)
     atomic = int("atomic" in d["caps"])
     unp = done["unp"] if done else "?"
+    up = next((e for e in ev if e["op"] == "unpack" and e["p"] == p), None)
+    srvunp = "nopack" if up is None else ("ok" if up["ok"] else "fail")
+    ctxt = f"caps={d['caps']} decl={d['decl']} predecl={d['predecl']} pushers={len(push)} refs0={tr['refs0']} store0={tr['store0']}"
     if clause == "AtomicOK":
         infos = [cmdinfo(j) for j in range(1, len(d["cmds"]) + 1)]
         why = sorted({("decl" if x["hook"] != "none" else "stale" if x["old"] == "stale" else "skipped" if not x["exe"] else "failed")
                       for x in infos if x["post"] != x["c"]["new"]})
-        scen = f"{path} partial failed={'+'.join(why)} unpack={unp} race={race}"
+        scen = f"{path} partial failed={'+'.join(why)} race={race}"
         what = (f"atomic push applied only some of its updates: {[(x['c'], 'changed' if x['changed'] else 'not applied') for x in infos]} "
-                f"told={done['st'] if done else None}")
+                f"told={done['st'] if done else None}; {ctxt}")
+    elif clause == "NoDanglingRef":
+        x = cmdinfo(i) if i else dict(kind="?", old="?", new="?", exe=0, changed=0, c=None, pre=None, post=None)
+        scen = f"{path} new={x['new']} old={x['old']} exe={x['exe']} changed={x['changed']} unpack={srvunp}"
+        what = (f"ref {a} names object {x['post']} which the server's object store does not hold, after command {x['c']} of push {p} "
+                f"({x['kind']}, atomic={atomic}); {ctxt}")
     else:
         x = cmdinfo(i) if i else dict(kind="?", old="?", new="?", exe=0, changed=0, reported="?", hook="?", c=None, pre=None, post=None)
-        scen = (f"{path} cmd={x['kind']} old={x['old']} new={x['new']} exe={x['exe']} changed={x['changed']} reported={x['reported']} "
-                f"atomic={atomic} unpack={unp} hook={x['hook']} race={race}")
-        what = (f"{clause}: command {x['c']} of push {p} ({path}, caps={d['caps']}): ref was {x['pre']} before and {x['post']} after the "
-                f"push's operation, client told {x['reported']!r} (unpack {unp}); refs0={tr['refs0']} store0={tr['store0']}")
+        scen = f"{path} old={x['old']} exe={x['exe']} changed={x['changed']} reported={x['reported']} unpack={unp}"
+        what = (f"{clause}: command {x['c']} ({x['kind']}, new value {x['new']}) of push {p}: ref was {x['pre']} before and {x['post']} after "
+                f"the push's operation, client told {x['reported']!r} (unpack {unp}, atomic={atomic}, hook={x['hook']}); {ctxt}")
     return f"{site}|{clause}|{scen}", what
 
 
